@@ -17,10 +17,22 @@ ASSUMPTIONS = ["the theorem is about the reference-rewriting part of linking; th
 KIND = {"M": "KMessage", "E": "KEnum", "S": "KService", "O": "KOther"}
 
 
+# Name components are interned to short tokens before they are written as Coq strings: resolution only ever
+# compares components for equality, the map is injective, and Coq strings are expensive to parse and check.
+_TOK = {}
+_DIGITS = "0123456789abcdefghijklmnopqrstuvwxyz"
+
+
 def c_str(s):
-    if '"' in s or "\\" in s:
-        raise ValueError("unexpected character in a name: %r" % s)
-    return '"%s"' % s
+    if s not in _TOK:
+        n, t = len(_TOK), ""
+        while True:
+            t = _DIGITS[n % 36] + t
+            n //= 36
+            if n == 0:
+                break
+        _TOK[s] = t
+    return '"%s"' % _TOK[s]
 
 
 def c_name(parts):
@@ -59,9 +71,11 @@ def testdata_cases():
 
 
 def run(ctx):
+    import time as _t0
+    ctx.extra["t_run_start"] = round(_t0.time() - ctx.t0, 1)
     rng = ctx.rng
-    nprog = ctx.budget(220, 3000)
-    ncorr = ctx.budget(45, 400)     # programs whose references are also run through the Coq model
+    nprog = ctx.budget(180, 3000)
+    ncorr = ctx.budget(30, 400)     # programs whose references are also run through the Coq model
     ctx.rule = ("hand-written programs with shadowing names + every compilable .proto of the repository's internal/testdata (each against the root directory it is written for) + %d generated "
                 "multi-file programs (proto2/proto3/editions, imports incl. public, type references spelled absolute / fully qualified / relative to an enclosing "
                 "message or package prefix, maps, groups, extensions, custom options with message values, services, feature overrides); each compiled and its "
